@@ -206,6 +206,10 @@ class CSSImportRule(cssrule.CSSRule):
                 val = self._tokenvalue(token)
                 if expected.endswith(';') and ';' == val:
                     return 'EOF'
+                elif '(' == val and expected.startswith('media'):
+                    # a media query may start with an expression:
+                    # @import "x" (min-width: 25cm);
+                    return _ident(expected, seq, token, tokenizer)
                 else:
                     new['wellformed'] = False
                     self._log.error(
